@@ -226,7 +226,8 @@ fn check(case: &Case, obs: &mut Obs) -> PropResult {
 		}
 		infos.insert(name, info);
 	}
-	let res_names = ["assets/a.png", "data/d.json", "pack.png", "version.json", "assets/b.txt", "log4j2.xml"];
+	// near misses of the signature-file rule (META-INF/*.SF, META-INF/*.RSA) must be kept like any other resource
+	let res_names = ["assets/a.png", "META-INF/services/x.Provider", "pack.RSA", "assets/keys/MOJANGCS.SF", "META-INF/notice.SF.txt", "log4j2.xml"];
 	let mut res_expect: BTreeMap<String, Option<Vec<u8>>> = BTreeMap::new();
 	for (i, r) in case.resources.iter().enumerate().take(res_names.len()) {
 		let n = res_names[i].to_string();
